@@ -72,7 +72,7 @@ def mutate(rng, a):
     return out
 
 
-DIALECTS = ["labels", "timestamps", "git", "orig", "quoted", "p0", "p2"]
+DIALECTS = ["labels", "timestamps", "epoch", "git", "orig", "quoted", "p0", "p2"]
 
 
 def make_patch(rng, a, b, c, dialect, top):
@@ -111,7 +111,12 @@ def make_patch(rng, a, b, c, dialect, top):
         if dialect == "p2":
             la, lb, strip = b"x/y/" + name, b"x/y/" + name, 2
         cmd = [b"diff", b"-a", b"-U%d" % c]
-        if dialect != "timestamps":
+        if dialect == "epoch":
+            # files whose time stamp is the epoch: `1970-01-01 00:00:00.000000000 +0000` behind the names
+            for f in (pa, pb):
+                if os.path.exists(f):
+                    os.utime(f, (0, 0))
+        if dialect not in ("timestamps", "epoch"):
             cmd += [b"--label", la if a is not None else b"/dev/null", b"--label", lb if b is not None else b"/dev/null"]
         cmd += [b"a/" + name if a is not None else b"/dev/null", b"b/" + name if b is not None else b"/dev/null"]
         p = subprocess.run(cmd, cwd=top, env=env, stdout=subprocess.PIPE, stderr=subprocess.PIPE)
